@@ -186,6 +186,23 @@ func factsProxy() {
 	rw = append(rw, prefixed("eager:", stmtsContaining(body(fn(pmg, "", "newEagerRespSet")), "NewWarnSeriesResponse(rerr)"))...)
 	emitList("recvErrorToWarning", "pkg/store/proxy_merge.go: what both receivers do with a failing Recv", rw)
 
+	// ---- C06 at the querier: every successful return of selectFn carries the collected warnings
+	qf := parse("pkg/query/querier.go")
+	var succ []string
+	if sf := fn(qf, "querier", "selectFn"); sf != nil && sf.Body != nil {
+		ast.Inspect(sf.Body, func(n ast.Node) bool {
+			if r, ok := n.(*ast.ReturnStmt); ok && len(r.Results) == 3 && text(r.Results[2]) == "nil" {
+				succ = append(succ, text(r.Results[0]))
+			}
+			return true
+		})
+	}
+	emitList("selectFnSuccessReturns", "pkg/query/querier.go selectFn: the series set of every return with a nil error", succ)
+	emitList("selectFnWarns", "pkg/query/querier.go selectFn: where `warns` is defined and used to build `set`",
+		stmtsContaining(body(fn(qf, "querier", "selectFn")), "warns"))
+	emitStr("seriesServerWarning", "pkg/query/querier.go seriesServer.Send: which responses become annotations",
+		firstIfCond(body(fn(qf, "seriesServer", "Send")), "GetWarning"))
+
 	// ---- C17: who puts the shard buffer back, how often, and how the byte pool tests its budget
 	si := parse("pkg/store/storepb/shard_info.go")
 	emitList("shardMatcherCloseBody", "pkg/store/storepb/shard_info.go ShardMatcher.Close: body of `if s.buffers != nil`",
